@@ -330,6 +330,8 @@ def check(prog, res, tier):
             for e in p.events:
                 if e.kind == 'mutate-shared':
                     fails.append(definite('the packaged configuration itself is modified', e.node))
+                if folded.get('concrete'):
+                    continue        # folded run: the returned dictionary of constants is compared as a whole below
                 if e.kind == 'delitem' or (e.kind == 'dict-pop' and isinstance(e.data['obj'], GenericChild)):
                     obj = e.data['obj']
                     key = it.py_key(e.data['key'])
@@ -390,11 +392,34 @@ def check(prog, res, tier):
                     # built in another way (comprehensions, dict(...)): not followed by this rule
                     fails.append(soft(f'get_config returns {v!r}: not recognised as the bit configuration of a private copy'))
             return fails
+        # first: fold the function over the constants of the packaged literal (deepcopy materialised, loops over its entries
+        # run entry by entry); when that yields a dictionary of constants the comparison in chk_g decides, whatever the
+        # style (del / pop loops, comprehensions, two passes)
+        runs_k = Runs(prog, entry_g, res=res, hooks={'concrete_deepcopy': True})
+        concrete = None
+        kpaths = [p for p in runs_k.inv]
+        if len(kpaths) == 1 and kpaths[0].outcome == 'return' and not kpaths[0].unknowns and not kpaths[0].tainted and \
+                isinstance(kpaths[0].value, DictV) and not isinstance(kpaths[0].value, MutCopy):
+            folded['concrete'] = True
+            fs = chk_g(kpaths[0], 'inv')
+            folded['concrete'] = False
+            if folded['ok'] and not fs:
+                concrete = ('ok', None)
+            elif fs and not any(f.soft for f in fs):
+                concrete = ('bad', fs[0])
+        folded['ok'] = False
         ob = runs_g.judge('C19.b', 'get_config returns a private copy of the packaged bit configuration with exactly the PDS processors removed',
                           func_where(gfi), "if field_config.get('field_processor') == 'PDS': del field_config['field_processor']", chk_g)
         removed = any(e.kind == 'delitem' or (e.kind == 'dict-pop' and isinstance(e.data['obj'], GenericChild))
                       for p in runs_g.inv for e in p.events)
-        plain_copy = all(isinstance(p.value, MutCopy) for p in runs_g.inv if p.outcome == 'return') and not folded['ok']
+        if concrete is not None:
+            from ..report import PROVED as _P, REFUTED as _R
+            if concrete[0] == 'ok':
+                ob.verdict, ob.detail = _P, 'folded over the packaged literal: every entry equals the packaged one with the PDS processor removed; no packaged object is modified'
+            else:
+                ob.verdict, ob.detail, ob.witness = _R, concrete[1].desc, {'folded': 'packaged bit configuration'}
+            removed = True
+        plain_copy = all(isinstance(p.value, MutCopy) for p in runs_g.inv if p.outcome == 'return') and not folded['ok'] and concrete is None
         if ob.verdict == PROVED and not removed and plain_copy:
             ob.verdict, ob.detail, ob.witness = REFUTED, 'no processor is removed: PDS carriers would be expanded and re-packed during conversion', {'deletes': 0}
         res.add(ob)
